@@ -446,6 +446,7 @@ pub fn run(seed: u64, tier: &str, ev: &mut Evidence) -> Vec<Violation> {
         let sizes: Vec<usize> = if i % 5 == 0 { SIZES_MB_IN_PROCESS.to_vec() } else { vec![*rng.pick(&SIZES_MB_IN_PROCESS)] };
         for size_mb in sizes {
             let case = CaseA { spec: spec.clone(), expected_allocs: *allocs, size_mb };
+            super::util::breadcrumb("C16", json!({"kind": "c16a", "case": case.to_json()}));
             out.evaluations += 1;
             match check_a(&case) {
                 Ok(Some(o)) => {
@@ -596,4 +597,10 @@ pub fn run(seed: u64, tier: &str, ev: &mut Evidence) -> Vec<Violation> {
         violations.push(Violation { property: "C16".into(), oracle: o.clone(), detail: d, signature: json!({"engine": ENGINE_B, "oracle": o, "action": c.action}), replay: c.to_json() });
     }
     violations
+}
+
+pub fn replay_unit(u: &Value) -> Result<(), String> {
+    let case = CaseA::from_json(u.get("case").ok_or("no case")?).ok_or("bad case")?;
+    let _ = check_a(&case);
+    Ok(())
 }
